@@ -1,5 +1,16 @@
 package main
 
+import (
+	"bytes"
+	"encoding/binary"
+	"fmt"
+	"net"
+	"strings"
+	"time"
+
+	"golang.org/x/time/rate"
+)
+
 func init() {
 	commands["C08"] = runC08
 	commands["C05"] = runC05
@@ -30,6 +41,60 @@ func runC08(r *Run) {
 		}
 		sc.close()
 	}
+	for i := 0; i < r.n(20, 400); i++ {
+		r.c08Burst(i)
+	}
+}
+
+// Concurrent queries: replies are produced by goroutines that may overlap; every requester must
+// still get exactly one datagram carrying its own transaction ID and its own address.
+func (r *Run) c08Burst(i int) {
+	sc := r.newSrvScen(srvOpts{noSecurity: true, peerStore: i%2 == 0, mute: true, waitToReply: true, limiter: rate.NewLimiter(3000, 1)})
+	defer sc.close()
+	type sent struct {
+		src *net.UDPAddr
+		t   []byte
+	}
+	var qs []sent
+	n := 30 + r.rng.Intn(30)
+	for j := 0; j < n; j++ {
+		src := sc.freshSrc([]int{0, 0, 1, 2}[r.rng.Intn(4)])
+		q := sc.mkQuery([]string{"ping", "find_node", "get_peers", "get"}[r.rng.Intn(4)], r.randID(), r.randID())
+		q.t = []byte(fmt.Sprintf("%c%02d%s", 'A'+j%26, j, strings.Repeat("x", r.rng.Intn(4))))
+		q.ro = true
+		qs = append(qs, sent{src, q.t})
+		sc.conn.inject(q.bval().enc(), src)
+	}
+	if !sc.conn.waitWrites(n, 10*time.Second) {
+		sc.viol("C08", fmt.Sprintf("burst of %d concurrent queries got only %d datagrams", n, sc.conn.numWrites()))
+	}
+	time.Sleep(2 * time.Millisecond)
+	per := map[string][]dgram{}
+	for _, w := range sc.conn.writes() {
+		per[w.Addr.String()] = append(per[w.Addr.String()], parseDgram(w))
+	}
+	for _, q := range qs {
+		ds := per[q.src.String()]
+		sc.events = []string{fmt.Sprintf("burst of %d concurrent queries; requester %s sent t=%q", n, q.src, q.t)}
+		if len(ds) != 1 {
+			sc.viol("C08", fmt.Sprintf("requester in a concurrent burst got %d datagrams", len(ds)))
+			continue
+		}
+		d := ds[0]
+		if !d.ok {
+			sc.viol("C08", "reply in a concurrent burst is not well-formed bencode")
+			continue
+		}
+		if !bytes.Equal(d.t, q.t) {
+			sc.viol("C08", fmt.Sprintf("reply does not echo the transaction ID byte for byte (concurrent burst): got %q", d.t))
+		}
+		ip, _ := d.v.get("ip").str()
+		if d.y == "r" && !(len(ip) >= 6 && net.IP(ip[:len(ip)-2]).Equal(q.src.IP) && int(binary.BigEndian.Uint16(ip[len(ip)-2:])) == q.src.Port) {
+			sc.viol("C08", "response `ip` is not the requester's compact address (concurrent burst)")
+		}
+	}
+	r.hist("burst/concurrent-queries")
+	r.count(fmt.Sprintf("burst%d/%d", i, n), true)
 }
 
 func runC05(r *Run) {
